@@ -501,7 +501,7 @@ func checkParsedViewApplied(c *Ctx, rule string) {
 			if !ok || len(r.Results) == 0 {
 				return false
 			}
-			last := r.Results[len(r.Results)-1]
+			last := returnedValues(r)[len(r.Results)-1]
 			if _, isErr := last.Type().Underlying().(*types.Interface); !isErr {
 				return false
 			}
@@ -679,7 +679,7 @@ func checkSingleflightEntry(c *Ctx, rule string, calls *types.Var) {
 					}
 					// with a defer in the function the results are spilled into cells: the values returned are the
 					// values stored into those cells at each return statement
-					for _, r := range ret.Results {
+					for _, r := range returnedValues(ret) {
 						if ld, ok := r.(*ssa.UnOp); ok && ld.Op == token.MUL {
 							if al, ok := ld.X.(*ssa.Alloc); ok {
 								for _, rr := range *al.Referrers() {
